@@ -109,12 +109,12 @@ theorem toPattern_leaves' (fmt : Bool) :  (e : Expr) (p : Pattern), toPattern
       路 simp at h
       路 split at h
         路 simp at h
-        路 next pr hr =>
+        路 next pl hl =>
           split at h
           路 simp at h
           路 split at h
             路 simp at h
-            路 next pl hl =>
+            路 next pr hr =>
               have ihl := toPattern_leaves' fmt l pl hl
               have ihr := toPattern_leaves' fmt r pr hr
               split at h
@@ -250,7 +250,8 @@ theorem dictGo_leaves' (fmt : Bool) :  (items : List Expr) (seen : Bool) (ms 
             have hv := toPattern_leaves' fmt v p hp
             have hk' : k' = k := by
               split at hk
-              路 simp at hk; exact hk.symm
+              路 split at hk <;> simp at hk
+                exact hk.symm
               路 split at hk
                 路 next hw => exact valueOf_toPattern fmt k k' hw hk
                 路 simp at hk
@@ -475,12 +476,12 @@ theorem roundtrip' :  (e : Expr) (p : Pattern), toPattern false e = some p 
       路 simp at h
       路 split at h
         路 simp at h
-        路 next pr hr =>
+        路 next pl hl =>
           split at h
           路 simp at h
           路 split at h
             路 simp at h
-            路 next pl hl =>
+            路 next pr hr =>
               have ihl := roundtrip' l pl hl
               have ihr := roundtrip' r pr hr
               split at h
@@ -616,7 +617,8 @@ theorem dictGo_rt' :  (items : List Expr) (seen : Bool) (ms : List Pattern) (
             have hv := roundtrip' v p hp
             have hk' : k' = k := by
               split at hk
-              路 simp at hk; exact hk.symm
+              路 split at hk <;> simp at hk
+                exact hk.symm
               路 split at hk
                 路 next hw => exact valueOf_toPattern false k k' hw hk
                 路 simp at hk
